@@ -12,9 +12,8 @@
    state it found (the documented keep-alive of RefreshTTLOnSuppress only
    moves the deadline of the existing entry).
 
-   Reads are the model's pure read functions applied to the retained window
-   of the log (last StreamSize entries) and to the sorted key list computed
-   from scratch (pagination itself is the subject of C21). *)
+   Reads are specified independently too (filter over the retained window of
+   the log; sort + filter after the cursor position), see the "reads" section. *)
 From Coq Require Import List NArith ZArith Bool.
 From Cfg Require Import Model.MapHub.
 Import ListNotations.
@@ -207,20 +206,85 @@ Definition spec_clear (s : sstate) (ch : N) : sstate :=
   mkSS (adel N.eqb (ss_chans s) ch) (adel N.eqb (ss_idem s) ch) (ss_now s) (ss_nep s) (ss_bcast s).
 
 (* ------------------------------------------------------------------- reads *)
+(* Reads are specified from the documentation of MapReadStreamOptions /
+   MapReadStateOptions, independently of the broker's algorithms (no index
+   lookup, no cursor search, no sorted-key cache):
+   - the stream read returns, from the retained window of the log, the entries
+     with an offset strictly greater than Since (oldest first) or strictly
+     smaller (newest first when Reverse), at most Limit of them (negative =
+     all, 0 = none);  [quirk kept from the code: a Reverse read from a
+     position more than one past the top returns nothing]
+   - the state read sorts the keys by the channel's order, keeps those
+     strictly after the cursor position, returns at most Limit entries and the
+     cursor of the last returned entry when more remain. *)
+Definition spec_take {A} (limit : Z) (l : list A) : list A :=
+  if (limit <? 0)%Z then l else firstn (Z.to_nat limit) l.
+
+Definition spec_stream_read (w : list pub) (top : N) (since : option N) (limit : Z) (reverse : bool) : list pub :=
+  match since with
+  | None => spec_take limit (if reverse then rev w else w)
+  | Some so =>
+      if reverse
+      then if so - 1 <=? top then spec_take limit (rev (filter (fun p => p_off p <? so) w)) else []
+      else spec_take limit (filter (fun p => so <? p_off p) w)
+  end.
+
 Definition spec_read_stream (cfgs : list rawcfg) (s : sstate) (ch : N) (since : option pos) (limit : Z) (reverse : bool)
   : sstate * sres :=
   match s_get s ch with
   | None => let '(s1, c) := s_ensure s ch in (s1, SOk [] (s_pos c))
   | Some c =>
-    let st := mkStream (N.of_nat (length (sc_log c))) (sc_epoch c) (window (size_of cfgs ch) (sc_log c)) in
-    let p := s_pos c in
+    let w := window (size_of cfgs ch) (sc_log c) in
+    let top := N.of_nat (length (sc_log c)) in
     match since with
-    | None => if (limit =? 0)%Z then (s, SOk [] p) else (s, SOk (stream_get st 0 false limit reverse) p)
     | Some (so, se) =>
-        if negb (se =? 0) && negb (se =? sc_epoch c) then (s, SUnrec) else
-        if negb reverse && (N.of_nat (length (sc_log c)) =? so) then (s, SOk [] p) else
-        (s, SOk (stream_get st (if reverse then so - 1 else so + 1) true limit reverse) p)
+        if negb (se =? 0) && negb (se =? sc_epoch c) then (s, SUnrec)
+        else (s, SOk (spec_stream_read w top (Some so) limit reverse) (s_pos c))
+    | None => (s, SOk (spec_stream_read w top None limit reverse) (s_pos c))
     end
+  end.
+
+(* the channel's sort order on (score, key) *)
+Definition spec_less (ordered asc : bool) (st : list (key * entry)) (a b : key) : bool :=
+  let sa := score_of st a in let sb := score_of st b in
+  if ordered then
+    if asc then (sa <? sb)%Z || ((sa =? sb)%Z && key_ltb a b)
+    else (sb <? sa)%Z || ((sa =? sb)%Z && key_ltb b a)
+  else key_ltb a b.
+
+(* strictly after the position a cursor denotes: the cursor of an unordered
+   channel is a key, of an ordered channel "score NUL key" *)
+Definition spec_after (ordered asc : bool) (st : list (key * entry)) (cursor : list N) (k : key) : bool :=
+  if ordered then
+    let '(cs, ckey) := parse_ordered_cursor cursor in
+    let c := parse_int cs in let s := score_of st k in
+    if asc then (c <? s)%Z || ((c =? s)%Z && key_ltb ckey k)
+    else (s <? c)%Z || ((c =? s)%Z && key_ltb k ckey)
+  else key_ltb cursor k.
+
+Definition spec_cursor (ordered : bool) (st : list (key * entry)) (k : key) : list N :=
+  if ordered then make_ordered_cursor (score_of st k) k else k.
+
+Definition spec_state_read (ordered : bool) (st : list (key * entry)) (p : pos)
+           (rev : option pos) (cursor : list N) (limit : Z) (k : key) (asc : bool) : stres :=
+  let bad := match rev with
+             | Some (_, re) => if negb (snd p =? re) then Some (StUnrec p) else None
+             | None => None
+             end in
+  match bad with
+  | Some r => r
+  | None =>
+    if negb (is_empty k) then
+      StOk (match aget key_eqb st k with Some e => [e_pub e] | None => [] end) p []
+    else if (limit =? 0)%Z then StOk [] p []
+    else
+      let sorted := sort_by (spec_less ordered asc st) (map fst st) in
+      let rest := if is_empty cursor then sorted else filter (spec_after ordered asc st cursor) sorted in
+      if (limit <? 0)%Z then StOk (pubs_of st rest) p []
+      else
+        let page := firstn (Z.to_nat limit) rest in
+        StOk (pubs_of st page) p
+             (if Nat.ltb (Z.to_nat limit) (length rest) then spec_cursor ordered st (last page []) else [])
   end.
 
 Definition spec_read_state (cfgs : list rawcfg) (s : sstate) (ch : N)
@@ -235,12 +299,7 @@ Definition spec_read_state (cfgs : list rawcfg) (s : sstate) (ch : N)
         | Some (_, re) => if negb (re =? 0) then (s1, StUnrec (s_pos c)) else (s1, StOk [] (s_pos c) [])
         | None => (s1, StOk [] (s_pos c) [])
         end
-    | Some c =>
-        match state_pre (sc_map c) (s_pos c) rev limit k with
-        | Some r => (s, r)
-        | None => (s, state_page (cf_ordered cf) (sc_map c)
-                                 (sorted_keys (cf_ordered cf) asc (sc_map c)) (s_pos c) cursor limit asc)
-        end
+    | Some c => (s, spec_state_read (cf_ordered cf) (sc_map c) (s_pos c) rev cursor limit k asc)
     end
   end.
 
@@ -288,6 +347,7 @@ Definition spec_step (cfgs : list rawcfg) (s : sstate) (o : op) : sstate * res :
   | OAdvance n => (mkSS (ss_chans s) (ss_idem s) (ss_now s + n) (ss_nep s) (ss_bcast s), RUnit)
   | OSweep => (spec_sweep cfgs (length (s_expired s)) s, RUnit)
   | OPhase1 | OPhase2 => (s, RBlocked)       (* not operations of the reference map *)
+  | OExpireStreams | ORemoveChannels => (s, RBlocked)
   end.
 
 Definition obs := (res * list bcast)%type.
@@ -309,4 +369,4 @@ Fixpoint run_obs (cfgs : list rawcfg) (h : hub) (ops : list op) : list obs :=
       (r, skipn (length (h_bcast h)) (h_bcast h1)) :: run_obs cfgs h1 ops'
   end.
 
-Definition seq_op (o : op) : bool := match o with OPhase1 | OPhase2 => false | _ => true end.
+Definition seq_op (o : op) : bool := match o with OPhase1 | OPhase2 | OExpireStreams | ORemoveChannels => false | _ => true end.
